@@ -17,7 +17,14 @@ from vf import si
 LABELS = ["A", "B", "C", "E", "F", "G2", "h_1", "Xy", "π", "N*", "2PG", "12", "1"]      # the last three start with / are digits: a label is whatever stands after the (optional) coefficient
 # some labels contain one another on purpose (a look-up by substring instead of by key would confuse them)
 ENVS = ["cyt", "mem", "nuc", "ext", "cytosol", "membrane", "ex", "nuc2",
-        "2", "1", "0", "A"]      # labels that look like indices (but are not their own position), a label shared with a species
+        "2", "1", "0", "A", ""]      # labels that look like indices (but are not their own position), a label shared with a species, the empty label (the stock environment of a network)
+
+
+def fresh(x):
+    """an equal but distinct string object (what json.load, str.lower(), "".join(...) hand over): never the interned literal"""
+    if isinstance(x, str) and len(x) > 1:
+        return "".join(list(x))
+    return x
 
 
 def rng_for(seed, *salt):
@@ -444,7 +451,7 @@ def render_network(desc, rd, parent_sys):
             sto = rd.keep([rd.keep(dict(x["sub"])), rd.keep(dict(x["prod"]))])
         reactions.append(Reaction(sto, kf=rd.per_env(x["kf"], K_DIM(no), rsys), kr=rd.per_env(x["kr"], K_DIM(mo), rsys),
                                   label=x.get("label"), units_system=UnitsSystem(**si.sys_dict(rsys))))
-    return RDNetwork(species=rd.keep(list(species)), reactions=rd.keep(list(reactions)), environments=rd.keep(list(desc["envs"])),
+    return RDNetwork(species=rd.keep(list(species)), reactions=rd.keep(list(reactions)), environments=rd.keep([fresh(e_) for e_ in desc["envs"]]),
                      units_system=UnitsSystem(**si.sys_dict(nsys)))
 
 
@@ -458,7 +465,7 @@ def bc_dict_form(bc, r):
     for k in keys:
         if drop and bc[k] == "reflecting" and r.random() < 0.7:
             continue
-        out[k] = bc[k]
+        out[k] = fresh(bc[k])
     return out
 
 
@@ -588,7 +595,12 @@ def _units_entry(rd, d, sys3, parent):
     if sys3 == si.DEFAULT_SYS and rd.r.random() < 0.3 and parent is not None:
         d["units"] = "default"
         return
-    d[rd.r.choice(["units", "units_system", "units system", "u"])] = si.sys_dict(sys3)
+    full = si.sys_dict(sys3)
+    if rd.r.random() < 0.35:
+        # components equal to the documented defaults (µm, s, molecule) may be left out - down to the empty dictionary
+        dflt = si.sys_dict(si.DEFAULT_SYS)
+        full = {k_: v_ for k_, v_ in full.items() if not (v_ == dflt[k_] and rd.r.random() < 0.8)}
+    d[rd.r.choice(["units", "units_system", "units system", "u"])] = full
 
 
 def _q_json(rd, si_value, dim3, enclosing):
@@ -681,4 +693,12 @@ def system_dict(desc, rd, parent_sys=None):
         if isinstance(x, list):
             return [shuffled(v) for v in x]
         return x
-    return shuffled(d)       # the meaning of a dictionary does not depend on the order of its keys
+    d = shuffled(d)          # the meaning of a dictionary does not depend on the order of its keys
+    if r.random() < 0.6:
+        # ... nor on whether its strings are the interpreter's interned literals or the equal strings a JSON reader builds
+        import json as _json
+        try:
+            d = _json.loads(_json.dumps(d))
+        except (TypeError, ValueError):
+            pass
+    return d
